@@ -126,18 +126,103 @@ def run(chk):
         raise vlib.Inconclusive("vacuous: accepted=%d rejected=%d" % (accepted, rejected))
     chk.parts["auth"] = {"cases": len(allc), "model_cases": len(cases), "accepted": accepted, "rejected": rejected, "lab_skipped": lab,
                          "deviation_not_applicable": notapplied}
+    history(chk, binary)
     for i in (len(cases) // 3, len(cases) // 2):
         chk.sample({"case": name(cases[i]), "model": {k: cases[i][k] for k in ("accept", "required")},
                     "real": {k: rows[i].get(k) for k in ("honestEst", "honestErr", "rogueEst", "applied")}})
     chk.coverage["rule"] = ("every (honest role, version, verification setting / client-auth policy, credential, deviation) tuple reachable in Auth.tla, "
-                            "each played by a rogue pion peer; plus the same table under further cipher suites / key types; distinct = tuple")
+                            "each played by a rogue pion peer; plus the same table under further cipher suites / key types; plus every (policy, credential, "
+                            "Certificate message sent / empty / left out, first connection stalled before ChangeCipherSpec or completed) history of "
+                            "AuthHistory.tla with a second connection that resumes; distinct = tuple")
     chk.assumptions += ["the rogue is the library itself with deviations (competent: its Finished is consistent with what it sent)",
                         "chain validity facts (wrong CA / name / expiry) come from the lab PKI built with crypto/x509",
                         "DTLS 1.2 rogue clients run with extended master secret disabled (the session hash would cover the flight as generated)"]
 
 
+def history_cases(printed):
+    """AuthHistory.tla tuples -> harness cases (first connection with a stall point, second connection resumes)."""
+    out = []
+    for t in printed:
+        dev = ""
+        if t["certmsg"] == "omitted" and t["policy"] != 0:
+            dev = "omitCert"
+        elif t["certmsg"] == "empty" and t["cred"] != "none":
+            dev = "emptyCert"
+        out.append({"name": "policy%d/cred-%s/cert-%s/%s" % (t["policy"], t["cred"], t["certmsg"], t["stall"]),
+                    "clientAuth": t["policy"], "clientCert": t["cred"] != "none", "stall": t["stall"], "helloVerify": True, "ems": 2,
+                    "dev": dev, "_t": t})
+    return out
+
+
+def run_history(binary, cases):
+    wd = vlib.scratch("c03h")
+    try:
+        inp, out = os.path.join(wd, "in"), os.path.join(wd, "out")
+        json.dump([{k: v for k, v in c.items() if not k.startswith("_")} for c in cases], open(inp, "w"))
+        rc, txt = vlib.run_test(binary, "TestVerifC03Resume", {"VERIF_IN": inp, "VERIF_OUT": out}, timeout=1800)
+        if rc != 0 or not os.path.exists(out):
+            raise vlib.Inconclusive("auth history harness failed: %s" % txt[-1500:])
+        rows = vlib.read_ndjson(out)
+        if len(rows) != len(cases):
+            raise vlib.Inconclusive("auth history harness returned %d of %d rows" % (len(rows), len(cases)))
+        return rows
+    finally:
+        shutil.rmtree(wd, ignore_errors=True)
+
+
+def history_violation(c, r):
+    # the second connection's client shows nothing but what it showed before: a session - resumed or not - must not be
+    # established for a client whose credential cannot satisfy the policy
+    t = c["_t"]
+    return (r["sest"] or r["delivered"]) and t["cred"] == "none" and t["policy"] in (2, 4)
+
+
+def history(chk, binary):
+    """C03 across two connections sharing the server's session store (spec/AuthHistory.tla)."""
+    chk.add_tlc("mc.history", vlib.tlc_check("AuthHistory", "AuthHistory.mc.cfg", timeout=300, workers=2))
+    vlib.tlc_expect_violation("AuthHistory", "AuthHistory.cke.cfg", "ResumedOnlyIfAuthenticated (session stored on ClientKeyExchange)",
+                              timeout=300, workers=2)
+    gen = vlib.tlc_generate("AuthHistory", "AuthHistory.gen.cfg", timeout=300)
+    chk.add_tlc("gen.history", gen)
+    cases = history_cases(gen.printed)
+    if len(cases) < 30:
+        raise vlib.Inconclusive("too few history tuples (%d)" % len(cases))
+    rows = run_history(binary, cases)
+    lab = resumed = refused = 0
+    for c, r in zip(cases, rows):
+        t = c["_t"]
+        if r.get("lab"):
+            lab += 1
+            continue
+        chk.evaluated(key="history/" + c["name"])
+        chk.traces(1)
+        chk.distinct.add("history/" + c["name"])
+        if c["dev"] and not r["applied"]:
+            chk.note("DIVERGENCE: deviation %s not applied in history %s" % (c["dev"], c["name"]))
+        resumed += 1 if r["resumed"] else 0
+        refused += 0 if r["sest"] else 1
+        if history_violation(c, r):
+            chk.violation({"kind": "unauthenticated-peer-accepted", "ver": 12, "honest": "s", "cred": t["cred"], "dev": c["dev"] or "none",
+                           "policy": t["policy"], "history": t["stall"], "resumed": r["resumed"], "stored": r["stored"],
+                           "hcase": {k: v for k, v in c.items() if not k.startswith("_")}, "tuple": t})
+        elif r["resumed"] != t["est2"]:
+            chk.note("DIVERGENCE model/code in history %s: model resumes=%s code resumed=%s (stored=%s)" % (c["name"], t["est2"], r["resumed"], r["stored"]))
+    if lab > 2:
+        raise vlib.Inconclusive("%d of %d history cases could not be executed" % (lab, len(cases)))
+    if resumed < 3 or refused < 5:
+        raise vlib.Inconclusive("vacuous history part: resumed=%d refused=%d" % (resumed, refused))
+    chk.parts["history"] = {"cases": len(cases), "resumed": resumed, "second_connection_refused": refused, "lab_skipped": lab}
+
+
 def replay(chk, path):
     facts = json.load(open(path))
+    if "hcase" in facts:
+        c = dict(facts["hcase"], _t=facts["tuple"])
+        rows = run_history(vlib.build("root"), [c])
+        chk.evaluated(key="history/" + c["name"])
+        if history_violation(c, rows[0]):
+            chk.violation(dict(facts, replayed=True), replay=path)
+        return
     c = facts["case"]
     rows = run_cases(vlib.build("root"), [c], "replay")
     chk.evaluated(key=name(c))
